@@ -7,6 +7,7 @@ pub mod c02;
 pub mod c03;
 pub mod c04;
 pub mod c05;
+pub mod c06;
 pub mod c11;
 pub mod c16;
 pub mod c19;
@@ -14,7 +15,7 @@ pub mod common;
 pub mod c20;
 
 pub fn implemented(id: &str) -> bool {
-    matches!(id, "C01" | "C02" | "C03" | "C04" | "C05" | "C11" | "C16" | "C19" | "C20")
+    matches!(id, "C01" | "C02" | "C03" | "C04" | "C05" | "C06" | "C11" | "C16" | "C19" | "C20")
 }
 
 pub fn run(id: &str, ctx: &mut Ctx) {
@@ -24,6 +25,7 @@ pub fn run(id: &str, ctx: &mut Ctx) {
         "C03" => c03::run(ctx),
         "C04" => c04::run(ctx),
         "C05" => c05::run(ctx),
+        "C06" => c06::run(ctx),
         "C11" => c11::run(ctx),
         "C16" => c16::run(ctx),
         "C19" => c19::run(ctx),
